@@ -11,6 +11,9 @@ One case per line:
   dg <id> <hex64> / tg <id> <hex64>    Model/Special `digamma` / `trigamma` with the literals of Gen/Consts (`*_f64`)
   kl <id> <x> <logx>                   Model/Special `approxGammaKL` (digamma/trigamma as above)
                                        reply `<id> ok <shape-1> <rate>` | `<id> fail <reason>`
+  iqr <id> <q1> <q2> <x1> <x2> <cap> | gi <a> <q> <v> ... | gd <p> <x> <v> ... | lg <x> <v> ...
+                                       Model/Special `approxGammaIQR`; `gammaincinv`, `_gammainc_der`, `lgamma` answered
+                                       from the oracle tables (a miss yields NaN); same reply format as `kl`
 Reply: `<id> <pre: 0|1> <hex64 | nan>...`   (`nan` = the model returns `none` in that position)
        `<id> bad-op` for an unknown kernel / wrong arity.
 
@@ -103,6 +106,41 @@ def showFit : Fit Float → String
   | .ok s r => "ok " ++ floatToHex s ++ " " ++ floatToHex r
   | .fail why => "fail " ++ why
 
+def triples : List String → Option (List (UInt64 × UInt64 × Float))
+  | [] => some []
+  | a :: b :: v :: rest => do
+    let ab ← hexToU64 a
+    let bb ← hexToU64 b
+    let vf ← hexToFloat v
+    let r ← triples rest
+    pure ((ab, bb, vf) :: r)
+  | _ => none
+
+def lookup2 (tab : List (UInt64 × UInt64 × Float)) (a b : Float) : Float :=
+  ((tab.find? (fun p => p.1 == a.toBits && p.2.1 == b.toBits)).map (·.2.2)).getD nanF
+
+/-- split `ws` at the `|` separators -/
+def sections (ws : List String) : List (List String) :=
+  ws.foldr (fun w acc => if w = "|" then [] :: acc else match acc with
+    | [] => [[w]]
+    | h :: t => (w :: h) :: t) [[]]
+
+open Tsdate.Gen.Consts in
+def iqrF (gi gd : List (UInt64 × UInt64 × Float)) (lg : List (UInt64 × Float)) : IQRFns Float :=
+  { log := Float.log, exp := Float.exp, lgamma := fun x => (lookup lg x).getD nanF,
+    gammaincInv := lookup2 gi, gammaincDer := lookup2 gd,
+    reltol := ratToFloat approx._KLMIN_RELTOL, maxitt := approx._KLMIN_MAXITT.num.toNat }
+
+def runIqr (id : String) (secs : List (List String)) : Option String := do
+  let args ← mapAll hexToFloat (secs.headD [])
+  let find (k : String) : List String := ((secs.find? (fun s => s.head? = some k)).getD []).drop 1
+  let gi ← triples (find "gi")
+  let gd ← triples (find "gd")
+  let lg ← pairs (find "lg")
+  match args with
+  | [q1, q2, x1, x2, cap] => pure (id ++ " " ++ showFit (approxGammaIQR (iqrF gi gd lg) q1 q2 x1 x2 cap))
+  | _ => none
+
 def showOut (o : Option Float) : String :=
   match o with
   | none => "nan"
@@ -130,6 +168,7 @@ def runLine (ws : List String) : Option String :=
   | ["tg", id, x] => do
     let v ← hexToFloat x
     pure (id ++ " 1 " ++ floatToHex (trigammaF v))
+  | "iqr" :: id :: rest => runIqr id (sections rest)
   | ["kl", id, x, lx] => do
     let v ← hexToFloat x
     let l ← hexToFloat lx
